@@ -1,6 +1,8 @@
 import ZCV.Lemmas.Include
 import ZCV.Lemmas.IncludeGen
 import ZCV.Lemmas.IncludeGenEx
+import ZCV.Lemmas.IncludeLoad
+import ZCV.Lemmas.IncludeLoadEx
 /-!
 # C06 — `%include` behaves as textual inclusion of a self-contained fragment
 -/
@@ -250,5 +252,182 @@ example (fuel : Nat) :
     parseLines (fuel + 2) IncEx.env rec0 [] IncEx.ut (IncEx.A ++ ["%include $n".toList] ++ IncEx.B) 0 IncEx.s0 =
       .ok { ctx := [.value "j".toList "2f".toList, .value "i".toList "2".toList], stack := [], defs := IncEx.dny } :=
   IncEx.parse_top fuel
+
+/-! ## The outcome of the LOAD (`Cfg.load`: parser + matcher + datatypes), not only the events
+
+The theorems above are about the recording context `rec0`.  Below: what `ZConfig.loadConfig` returns.  Scope: texts
+without `%import` (in `A`, `B` and in every resource that can be opened), no command-line overrides, any schema the schema
+loader can produce (`schemaOK`, C10), any datatype family `conv`.  Outcomes are compared as "the configuration value, or
+rejection" (`toOption.map (·.value)`): the two texts are not rejected with the same MESSAGE — an error inside the fragment
+names the fragment's URL and line in one text and the includer's in the other (C08).
+
+`Conf.activeOf url`: the resources being read when the parse starts — `[u₀]` if `url = some u₀` with `u₀ ≠ ""`, else `[]`;
+`u ∉ Conf.activeOf url` says that the fragment is not the including resource itself.
+`Conf.recSt0`: no events, no open section, no definitions. -/
+
+/-- **The configuration is a function of the event stream.**  What `load` returns for a text is determined by the events
+    the parser delivers (section starts and ends, key/value pairs — without positions): `load` accepts exactly when the
+    parser accepts the text (`Conf.recOutcome`: the recording parse, with `load`'s fuel and active resources) and the
+    schema gives the recorded events a value (`Conf.valueOfEvents`: rebuild the tree, take the schema's value `denote`), and
+    then it returns that value.  Everything proved about events transfers to loads. -/
+theorem C06_load_factors_through_events (conv : Conv) (env : Env) (pkgs : Str → Pkg) (s : Schema) (url : Option Str)
+    (lines : List Str)
+    (hs : Conf.schemaOK s = true)
+    (hni : ∀ l ∈ lines, NoImportLine l)
+    (hresNI : ∀ u ls, env.res u = some ls → ∀ l ∈ ls, NoImportLine l) :
+    (load conv env pkgs s url lines []).toOption.map (·.value) =
+      (Conf.recOutcome env url lines).bind (fun o => Conf.valueOfEvents conv s o.1) :=
+  Conf.load_value_events conv env pkgs s url lines hs hni hresNI
+
+/-- **Textual inclusion, for the load.**  `A`, `F`, `B` any lines with `F` balanced: replacing `F` by an `%include` line
+    whose argument (no `$`) resolves, against the URL of the including resource, to a resource holding exactly `F`, gives
+    the same configuration — or both texts are rejected.  At top level or inside any sections (`A` may leave sections open
+    that `B` closes).  `F` contains no further `%include` (see `C06_load_include_eq_inline_nested`). -/
+theorem C06_load_include_eq_inline (conv : Conv) (env : Env) (pkgs : Str → Pkg) (s : Schema) (url : Option Str)
+    (A F B : List Str) (inc arg u : Str)
+    (hs : Conf.schemaOK s = true)
+    (hniA : ∀ l ∈ A, NoImportLine l) (hniB : ∀ l ∈ B, NoImportLine l)
+    (hresNI : ∀ u ls, env.res u = some ls → ∀ l ∈ ls, NoImportLine l)
+    (hshape : lineShape (strip inc) = .include_ arg)
+    (hnodollar : '$' ∉ strip arg)
+    (hres : env.resolve url (strip arg) = .url u)
+    (hfile : env.res u = some F)
+    (hact : u ∉ Conf.activeOf url)
+    (hbal : Balanced F) (hni : NoInclude F) :
+    (load conv env pkgs s url (A ++ [inc] ++ B) []).toOption.map (·.value) =
+      (load conv env pkgs s url (A ++ F ++ B) []).toOption.map (·.value) :=
+  Conf.load_include_eq_inline conv env pkgs s url A F B inc arg u hs hniA hniB hresNI hshape hfile hnodollar hres hact hbal hni
+
+/-- the rejection half, spelled out: the text with the `%include` line is rejected iff the inlined text is -/
+theorem C06_load_include_rejected_iff (conv : Conv) (env : Env) (pkgs : Str → Pkg) (s : Schema) (url : Option Str)
+    (A F B : List Str) (inc arg u : Str)
+    (hs : Conf.schemaOK s = true)
+    (hniA : ∀ l ∈ A, NoImportLine l) (hniB : ∀ l ∈ B, NoImportLine l)
+    (hresNI : ∀ u ls, env.res u = some ls → ∀ l ∈ ls, NoImportLine l)
+    (hshape : lineShape (strip inc) = .include_ arg)
+    (hnodollar : '$' ∉ strip arg)
+    (hres : env.resolve url (strip arg) = .url u)
+    (hfile : env.res u = some F)
+    (hact : u ∉ Conf.activeOf url)
+    (hbal : Balanced F) (hni : NoInclude F) :
+    (∃ e, load conv env pkgs s url (A ++ [inc] ++ B) [] = .error e) ↔
+      (∃ e, load conv env pkgs s url (A ++ F ++ B) [] = .error e) :=
+  Conf.load_rejected_iff_of_value_eq
+    (C06_load_include_eq_inline conv env pkgs s url A F B inc arg u hs hniA hniB hresNI hshape hnodollar hres hfile hact hbal hni)
+
+/-- **Textual inclusion for the load, with references in the argument.**  `hprep`: with the definitions `A` leaves (the
+    recording run of `A`: definitions do not depend on the context), the argument expands to some `a` that resolves,
+    against the includer's URL, to `u`. -/
+theorem C06_load_include_eq_inline_subst (conv : Conv) (env : Env) (pkgs : Str → Pkg) (s : Schema) (url : Option Str)
+    (A F B : List Str) (inc arg u : Str)
+    (hs : Conf.schemaOK s = true)
+    (hniA : ∀ l ∈ A, NoImportLine l) (hniB : ∀ l ∈ B, NoImportLine l)
+    (hresNI : ∀ u ls, env.res u = some ls → ∀ l ∈ ls, NoImportLine l)
+    (hshape : lineShape (strip inc) = .include_ arg)
+    (hprep : ∀ sA, runLines 64 env rec0 (Conf.activeOf url) url A 0 Conf.recSt0 = .ok sA →
+      ∃ a, replace env sA.defs url (A.length + 1) (strip arg) = .ok a ∧ env.resolve url a = .url u)
+    (hfile : env.res u = some F)
+    (hact : u ∉ Conf.activeOf url)
+    (hbal : Balanced F) (hni : NoInclude F) :
+    (load conv env pkgs s url (A ++ [inc] ++ B) []).toOption.map (·.value) =
+      (load conv env pkgs s url (A ++ F ++ B) []).toOption.map (·.value) :=
+  Conf.load_include_eq_inline_subst conv env pkgs s url A F B inc arg u hs hniA hniB hresNI hshape hfile hprep hact hbal hni
+
+/-- **Textual inclusion for the load, to any include depth.**  `F` may contain `%include` lines, to any depth.  Side
+    conditions as in `C06_include_eq_inline_nested`: `hrel` — the `%include` lines of `F` resolve against the fragment's
+    URL as against the includer's (same directory; otherwise inclusion is NOT textual: `IncEx.inlined_outside_fails`);
+    `hnl` — the parser does not refuse the text with the `%include` line for want of recursion budget or for an include
+    cycle (a statement about the parse only: it holds in particular whenever that text is accepted by the parser). -/
+theorem C06_load_include_eq_inline_nested (conv : Conv) (env : Env) (pkgs : Str → Pkg) (s : Schema) (url : Option Str)
+    (A F B : List Str) (inc arg u : Str)
+    (hs : Conf.schemaOK s = true)
+    (hniA : ∀ l ∈ A, NoImportLine l) (hniB : ∀ l ∈ B, NoImportLine l)
+    (hresNI : ∀ u ls, env.res u = some ls → ∀ l ∈ ls, NoImportLine l)
+    (hshape : lineShape (strip inc) = .include_ arg)
+    (hprep : ∀ sA, runLines 64 env rec0 (Conf.activeOf url) url A 0 Conf.recSt0 = .ok sA →
+      ∃ a, replace env sA.defs url (A.length + 1) (strip arg) = .ok a ∧ env.resolve url a = .url u)
+    (hfile : env.res u = some F)
+    (hact : u ∉ Conf.activeOf url)
+    (hbal : Balanced F)
+    (hrel : ∀ l ∈ F, ∀ arg', lineShape (strip l) = .include_ arg' → ∀ a, env.resolve (some u) a = env.resolve url a)
+    (hnl : incgenNoLimit (parseLines 64 env rec0 (Conf.activeOf url) url (A ++ [inc] ++ B) 0 Conf.recSt0)) :
+    (load conv env pkgs s url (A ++ [inc] ++ B) []).toOption.map (·.value) =
+      (load conv env pkgs s url (A ++ F ++ B) []).toOption.map (·.value) :=
+  Conf.load_include_eq_inline_nested conv env pkgs s url A F B inc arg u hs hniA hniB hresNI hshape hfile hprep hact hbal hrel hnl
+
+/-- … and one of the two loads is rejected iff the other is -/
+theorem C06_load_include_nested_rejected_iff (conv : Conv) (env : Env) (pkgs : Str → Pkg) (s : Schema) (url : Option Str)
+    (A F B : List Str) (inc arg u : Str)
+    (hs : Conf.schemaOK s = true)
+    (hniA : ∀ l ∈ A, NoImportLine l) (hniB : ∀ l ∈ B, NoImportLine l)
+    (hresNI : ∀ u ls, env.res u = some ls → ∀ l ∈ ls, NoImportLine l)
+    (hshape : lineShape (strip inc) = .include_ arg)
+    (hprep : ∀ sA, runLines 64 env rec0 (Conf.activeOf url) url A 0 Conf.recSt0 = .ok sA →
+      ∃ a, replace env sA.defs url (A.length + 1) (strip arg) = .ok a ∧ env.resolve url a = .url u)
+    (hfile : env.res u = some F)
+    (hact : u ∉ Conf.activeOf url)
+    (hbal : Balanced F)
+    (hrel : ∀ l ∈ F, ∀ arg', lineShape (strip l) = .include_ arg' → ∀ a, env.resolve (some u) a = env.resolve url a)
+    (hnl : incgenNoLimit (parseLines 64 env rec0 (Conf.activeOf url) url (A ++ [inc] ++ B) 0 Conf.recSt0)) :
+    (∃ e, load conv env pkgs s url (A ++ [inc] ++ B) [] = .error e) ↔
+      (∃ e, load conv env pkgs s url (A ++ F ++ B) [] = .error e) :=
+  Conf.load_rejected_iff_of_value_eq
+    (C06_load_include_eq_inline_nested conv env pkgs s url A F B inc arg u hs hniA hniB hresNI hshape hprep hfile hact hbal
+      hrel hnl)
+
+/-- in particular, with no side condition on limits: if `load` ACCEPTS the text with the `%include` line and returns `r`,
+    it accepts the inlined text and returns the same configuration -/
+theorem C06_load_include_eq_inline_nested_ok (conv : Conv) (env : Env) (pkgs : Str → Pkg) (s : Schema) (url : Option Str)
+    (A F B : List Str) (inc arg u : Str) (r : LoadResult)
+    (hs : Conf.schemaOK s = true)
+    (hniA : ∀ l ∈ A, NoImportLine l) (hniB : ∀ l ∈ B, NoImportLine l)
+    (hresNI : ∀ u ls, env.res u = some ls → ∀ l ∈ ls, NoImportLine l)
+    (hshape : lineShape (strip inc) = .include_ arg)
+    (hprep : ∀ sA, runLines 64 env rec0 (Conf.activeOf url) url A 0 Conf.recSt0 = .ok sA →
+      ∃ a, replace env sA.defs url (A.length + 1) (strip arg) = .ok a ∧ env.resolve url a = .url u)
+    (hfile : env.res u = some F)
+    (hact : u ∉ Conf.activeOf url)
+    (hbal : Balanced F)
+    (hrel : ∀ l ∈ F, ∀ arg', lineShape (strip l) = .include_ arg' → ∀ a, env.resolve (some u) a = env.resolve url a)
+    (hok : load conv env pkgs s url (A ++ [inc] ++ B) [] = .ok r) :
+    (load conv env pkgs s url (A ++ F ++ B) []).toOption.map (·.value) = some r.value :=
+  Conf.load_include_eq_inline_nested_ok conv env pkgs s url A F B inc arg u hs hniA hniB hresNI hshape hfile r hprep hact hbal
+    hrel hok
+
+/-- **… from the inlined text.**  The side condition is about the INLINED text: read by the parser with `u` counted among
+    the resources being read and one unit of recursion budget less (63: the fragment sits one level deeper in the other
+    text), it meets neither the recursion limit nor an include cycle.  Then the two texts are loaded alike. -/
+theorem C06_load_include_eq_inline_nested_rev (conv : Conv) (env : Env) (pkgs : Str → Pkg) (s : Schema) (url : Option Str)
+    (A F B : List Str) (inc arg u : Str)
+    (hs : Conf.schemaOK s = true)
+    (hniA : ∀ l ∈ A, NoImportLine l) (hniB : ∀ l ∈ B, NoImportLine l)
+    (hresNI : ∀ u ls, env.res u = some ls → ∀ l ∈ ls, NoImportLine l)
+    (hshape : lineShape (strip inc) = .include_ arg)
+    (hprep : ∀ sA, runLines 63 env rec0 (u :: Conf.activeOf url) url A 0 Conf.recSt0 = .ok sA →
+      ∃ a, replace env sA.defs url (A.length + 1) (strip arg) = .ok a ∧ env.resolve url a = .url u)
+    (hfile : env.res u = some F)
+    (hact : u ∉ Conf.activeOf url)
+    (hbal : Balanced F)
+    (hrel : ∀ l ∈ F, ∀ arg', lineShape (strip l) = .include_ arg' → ∀ a, env.resolve (some u) a = env.resolve url a)
+    (hnl : incgenNoLimit (parseLines 63 env rec0 (u :: Conf.activeOf url) url (A ++ F ++ B) 0 Conf.recSt0)) :
+    (load conv env pkgs s url (A ++ [inc] ++ B) []).toOption.map (·.value) =
+      (load conv env pkgs s url (A ++ F ++ B) []).toOption.map (·.value) :=
+  Conf.load_include_eq_inline_nested_rev conv env pkgs s url A F B inc arg u hs hniA hniB hresNI hshape hfile hprep hact hbal
+    hrel hnl
+
+/-- the hypotheses of `C06_load_include_eq_inline_nested` are satisfiable: `d/top` = `%define n f`, `%include $n`, `i $y`
+    with `d/f` = `%define y 2`, `%include g` and `d/g` = `j $y$n`, loaded under the URL `d/top` with a schema that accepts
+    any key — a reference in the argument, a nested `%include`, definitions flowing both ways; any datatypes -/
+example (conv : Conv) (pkgs : Str → Pkg) :
+    (load conv IncEx.env pkgs IncEx.schema IncEx.ut (IncEx.A ++ ["%include $n".toList] ++ IncEx.B) []).toOption.map (·.value) =
+      (load conv IncEx.env pkgs IncEx.schema IncEx.ut (IncEx.A ++ IncEx.F ++ IncEx.B) []).toOption.map (·.value) :=
+  IncEx.load_nested_instance conv pkgs
+
+/-- … and the instance is not "both rejected": with datatypes that convert nothing, the inlined text is accepted with the
+    configuration `{j: 2f, i: 2}` (derived from the theorem and the events of the text with the `%include` line) -/
+example (pkgs : Str → Pkg) :
+    (load IncEx.conv0 IncEx.env pkgs IncEx.schema IncEx.ut (IncEx.A ++ IncEx.F ++ IncEx.B) []).toOption.map (·.value) =
+      some (.sect [] none [("m".toList, .map [("j".toList, .str "2f".toList), ("i".toList, .str "2".toList)])]) :=
+  IncEx.load_inlined_value pkgs
 
 end ZCV.Props.C06
